@@ -47,7 +47,10 @@ def impl(line):
 
 
 def lean_line(line):
-    """history-free form of a line for the Lean drivers (see engine.evaluate, impl_loc.parse_loc kind `H`)"""
+    """history-free form of a line for the Lean drivers (see engine.evaluate, impl_loc.parse_loc kind `H`; ` @x` = the
+    relaxed parent comparison of the two operands was asked first, impl_algebra._relaxed_first)"""
+    if line.endswith(" @x"):
+        line = line[:-3]
     return " ".join(strip_history(line.split())) if " H " in line else line
 
 
@@ -76,6 +79,10 @@ def cases(run):
             if h:
                 run.count("history-twin")
                 yield h
+        if ln.split(" ", 1)[0] in ("overlap", "isect", "contains", "union", "unionpo", "minus") and " P 0 " not in " " + ln \
+                and run.rng.random() < 2 * share:
+            run.count("relaxed-first-twin")
+            yield ln + " @x"
 
 
 def spec_skip(line):
@@ -87,6 +94,8 @@ def spec_skip(line):
 def nontrivial(line, ans):
     if not ans.startswith("ok"):
         return None
+    if line.endswith(" @x"):
+        line = line[:-3]
     t = strip_history(line.split())
     multi = False
     both_par = 0
